@@ -153,6 +153,10 @@ def gen_world(rng, log):
         inst = type('Rec_' + ns, (object,), cls_dict)()
         for k, v in inst_attrs.items():
             setattr(inst, k, v)
+        if 'inner' not in spec[ns]:
+            inner = type('Inner', (object,), {'go': make_function('%s.inner.go' % ns, 0, 1, ('v', 9), log)})()
+            inst.inner = inner
+            spec[ns]['inner'] = ('o',)
         nss.append((ns, inst))
     for ns, attrs in spec.items():
         entries.append(hx(ns))
@@ -175,11 +179,13 @@ def names_for(rng, spec, n_random):
             names.add('%s.%s' % (ns, a))
             if rng.random() < 0.15:
                 names.add('%s.%s.%s' % (ns, a, rng.choice(['x', '__call__', 'supervisord', ''])))
+    for ns in spec:
+        names.add('%s.inner.go' % ns); names.add('x.%s.inner.go' % ns)
     names.update(['', '.', '..', 'supervisor', 'supervisor.', '.getPID', 'system.multicall', 'supervisor..getPID',
                   'supervisor.supervisord.options.mood', 'a.b.c.d'])
     names = sorted(names)
     rng.shuffle(names)
-    return names[:n_random]
+    return names[:n_random] + ['%s.inner.go' % ns for ns in spec]
 
 
 def outcome_line(fn, log):
@@ -415,6 +421,32 @@ def real_table(root):
     return entries, tab
 
 
+def deep_names(root, depth=4, limit=400):
+    """dotted chains of three or more parts that lead, attribute by attribute, from the root to a bound method
+    (what an object-traversing dispatcher would reach: CVE-2017-11610)"""
+    out, seen = [], set()
+    def walk(obj, path):
+        if len(out) >= limit or len(path) >= depth or id(obj) in seen:
+            return
+        seen.add(id(obj))
+        for a in dir(obj):
+            if a.startswith('__'):
+                continue
+            try:
+                v = getattr(obj, a)
+            except Exception:
+                continue
+            if inspect.ismethod(v):
+                if len(path) >= 2:
+                    out.append('.'.join(path + [a]))
+            elif hasattr(v, '__dict__') and not inspect.isclass(v) and not inspect.ismodule(v) and not inspect.isfunction(v):
+                walk(v, path + [a])
+    for ns in dir(root):
+        if not ns.startswith('__'):
+            walk(getattr(root, ns), [ns])
+    return out
+
+
 class Entered:
     """did a frame of this code object start?  (sys.setprofile; nothing in /repo is touched)"""
     def __init__(self, code):
@@ -453,6 +485,7 @@ def run_real(ctx):
         names.add('supervisor.supervisord.' + a); names.add('system.namespaces.supervisor.' + a)
     names.update(['supervisor.supervisord.options.mood', 'supervisor.supervisord.options.logger.handlers', 'system.namespaces.clear',
                   '__class__.__init__', '__dict__.clear', '__init__.__func__', '.', '', 'supervisor..getPID', '__class__.mro'])
+    names.update(deep_names(root))
     names = sorted(names)
     ctx.count('real:names', len(names)); ctx.count('real:table-entries', len(entries))
     ops, il = [], []
